@@ -74,15 +74,15 @@ PROPS = {
     ),
     "C05": dict(
         title="Field and scalar encodings are canonical; decoding is strict",
-        verus=[("gf255_m64_lin", None, "quick"), ("gfsecp256k1_lin", 100, "quick"), ("modint_codec", 60, "quick"), ("modint_monty", 120, "quick", (), 400),
+        verus=[("gf255_m64_lin", None, "quick"), ("gfsecp256k1_lin", 100, "quick"), ("gfsecp256k1_codec", 100, "quick"), ("modint_codec", 60, "quick"), ("modint_monty", 120, "quick", (), 400),
                ("modint_mul_p1", 120, "quick", (), 400), ("modint_mul_p2", 120, "quick", (), 400), ("modint_mul_p3", 120, "quick", (), 400)],
         kani=_gf255_k(["k_normalized_encode", "k_decode_ct32", "k_decode_ct_badlen", "k_decode_reduce32"]),
         cases=_f(["encode", "encode_alias", "decode_ct", "decode_opt", "decode_reduce", "roundtrip", "from_int", "from_w64"]),
-        level_text="ModInt256<M0..M3> (every scalar field and the P-256 field; any odd modulus with non-zero top limb): encode32 is proved by Verus to return the 32-byte little-endian string of the unique e < m with e*2^256 == limbs (mod m), i.e. the canonical value of the Montgomery representation; set_decode32 / decode32 return status all-ones exactly for 32-byte strings with little-endian value v < m, store x < m with x*2^256 == v*R2 (mod m) and zero otherwise; with R2 == 2^512 mod m (declared for make_r2) the two compose to the identity in both directions (lemma_encode_decode, lemma_decode_encode, by cancelling 2^256 modulo the odd m). The Montgomery reduction and multiplication contracts used are discharged in the same run. GF255<MQ>: set_normalized proved by Verus (result limbs == value mod q); encode32, strict decoding (in-place, on an arbitrary previous value) for every 32-byte string and every wrong length 0..=40, and encode-after-decode, proved by Kani on the full input domain. Other field/scalar types and decode_reduce: stand-in only.",
+        level_text="GFsecp256k1: set_normalized (limbs == value mod q), encode / encode32 (canonical little-endian string of the value), set_decode_ct / decode_ct / decode32 / decode (status or Some exactly for 32-byte strings below q, value preserved, zero limbs otherwise) proved by Verus. ModInt256<M0..M3> (every scalar field and the P-256 field; any odd modulus with non-zero top limb): encode32 is proved by Verus to return the 32-byte little-endian string of the unique e < m with e*2^256 == limbs (mod m), i.e. the canonical value of the Montgomery representation; set_decode32 / decode32 return status all-ones exactly for 32-byte strings with little-endian value v < m, store x < m with x*2^256 == v*R2 (mod m) and zero otherwise; with R2 == 2^512 mod m (declared for make_r2) the two compose to the identity in both directions (lemma_encode_decode, lemma_decode_encode, by cancelling 2^256 modulo the odd m). The Montgomery reduction and multiplication contracts used are discharged in the same run. GF255<MQ>: set_normalized proved by Verus (result limbs == value mod q); encode32, strict decoding (in-place, on an arbitrary previous value) for every 32-byte string and every wrong length 0..=40, and encode-after-decode, proved by Kani on the full input domain. Other field/scalar types and decode_reduce: stand-in only.",
         level_note="u64::from_le_bytes/to_le_bytes cannot be given a Verus spec in this toolchain (const-expression array length): the GF255 byte codecs are decided by Kani, the ModInt256 ones by Verus through the documented `lebytes` renaming to declared twins (std semantics assumed) and the declared <&[u8; 8]>::try_from. decode_reduce (any length) is stand-in only.",
         assumptions=["ModInt256::R2 == 2^512 mod m (make_r2, compile-time; declared) and M0I (proved for make_m0i in unit modint_m0i)",
                      "set_mul is used under its general contract; the units modint_mul_p1/p2/p3 prove it under three path conditions whose disjunction is true"],
-        not_reached=["GF255 set_decode_reduce for lengths other than 32 (stand-in only)", "ModInt256 set_decode_reduce / decode_reduce (any length), set_decode_ct for ENC_LEN != 32", "codecs of GF448, GFsecp256k1, gfgen, binary fields"],
+        not_reached=["GF255 set_decode_reduce for lengths other than 32 (stand-in only)", "ModInt256 set_decode_reduce / decode_reduce (any length), set_decode_ct for ENC_LEN != 32", "codecs of GF448, gfgen, binary fields; GFsecp256k1 set_decode_reduce"],
     ),
     "C06": dict(
         title="Group-element encodings are canonical, injective and strictly decoded",
@@ -220,11 +220,11 @@ PROPS = {
     ),
     "C19": dict(
         title="Decoding and verification are total: no panic, hang or out-of-bounds",
-        verus=[("recode_naf", None, "quick"), ("p256_decode", None, "quick"), ("ed25519_verify", None, "quick")],
+        verus=[("recode_naf", None, "quick"), ("p256_decode", None, "quick"), ("secp256k1_decode", 100, "quick"), ("ed25519_decode", 100, "quick"), ("ed448_decode", 100, "quick"), ("jq255e_codec", None, "quick"), ("jq255s_codec", None, "quick"), ("gfsecp256k1_codec", 100, "quick"), ("modint_codec", 60, "quick"), ("ed25519_verify", None, "quick"), ("ed448_verify", None, "quick"), ("p256_verify", None, "quick"), ("secp256k1_verify", None, "quick"), ("jq255e_schnorr", None, "quick"), ("jq255s_schnorr", None, "quick"), ("gls254_schnorr", None, "quick")],
         kani=[("lms::sha256_m32::k_verify_total", "quick", "full-domain")] + _gf255_k(["k_decode_ct_badlen"]),
         cases=["*_decode_strict", "*_decode_ct", "*_decode_opt", "*_decode_reduce", "*_verify", "ecdsa_verify", "*_ecdh", "lms_sig_corrupt", "modint_split", "gfgen_split",
                "hash_script", "x25519_ladder", "x448_ladder", "frost_*_decode_total", "frost_*_corrupt", "*_verify_helper_vartime", "p256_prepare_truncate_short", "ed25519_trunc", "p256_trunc"],
-        level_text="Absence of panics / out-of-bounds is part of every Verus obligation set and every Kani harness listed (index, slice, overflow and unwrap checks are built-in obligations): GF255 strict decoding for every length, P-256 point decoding for every string of every length, Ed25519 verify_raw/ctx/ph for every signature string (contexts up to 255 bytes: the documented precondition of the assert! in verify_inner), LMS verify for every string, wNAF recoding. All other entry points: the stand-in sweep catches panics (catch_unwind) on boundary-biased inputs of all lengths.",
+        level_text="Absence of panics / out-of-bounds is part of every Verus obligation set and every Kani harness listed (index, slice, overflow and unwrap checks are built-in obligations): GF255, ModInt256 and GFsecp256k1 strict decoding for every length, point decoding of P-256, secp256k1, edwards25519, edwards448, jq255e, jq255s for every string of every length, Ed25519 / Ed448 verification (contexts up to 255 bytes: the documented precondition of the assert! in verify_inner), ECDSA verify_hash and the Schnorr verify / ECDH functions for every signature / peer string, LMS verify for every string, wNAF recoding. All other entry points: the stand-in sweep catches panics (catch_unwind) on boundary-biased inputs of all lengths.",
         level_note="Most decode/verify entry points are not under contract; status-word exactness is proved only for GF255 (C20).",
     ),
     "C20": dict(
